@@ -35,11 +35,14 @@ structure Params where
   /-- `ReattachConfig()` of a client that was itself created by reattaching hands back the
       configuration it was given (so in particular its `Test` flag), not a rebuilt one -/
   reattachConfigKeepsTest : Bool
+  /-- `Start` holds `c.l` from its first statement to its return (`c.l.Lock(); defer c.l.Unlock()`, no other lock
+  operation on `c.l` in its body), so its "already started / already attempted" checks and the launch are one atomic step -/
+  startAtomic : Bool
   deriving DecidableEq, Repr
 
 def Params.Good (P : Params) : Prop :=
   P.retryGuard = true ∧ P.addrShortCircuit = true ∧ P.clientCached = true ∧ P.killRemovesDir = true ∧
-  P.testModeNoRunner = true ∧ P.reattachConfigKeepsTest = true
+  P.testModeNoRunner = true ∧ P.reattachConfigKeepsTest = true ∧ P.startAtomic = true
 
 instance (P : Params) : Decidable P.Good := by unfold Params.Good; exact inferInstance
 
@@ -93,6 +96,9 @@ def updP (f : Nat → Option Bool) (i : Nat) (v : Option Bool) : Nat → Option 
 inductive Event
   /-- `Start()`; `hsOk` = the launched process completes the handshake -/
   | start (hsOk : Bool)
+  /-- a `Start()` that overlaps another one and made its "already started?" checks BEFORE the other one launched
+  (possible only when `Start` lets go of `c.l` between the checks and the launch) -/
+  | startRaced (hsOk : Bool)
   /-- `Client()`; `connOk` = creating the protocol client succeeds (plugin reachable) -/
   | client (hsOk connOk : Bool)
   /-- `Protocol()` -/
@@ -151,6 +157,9 @@ def emit (r : State × Out) : State := { r.1 with outs := r.1.outs ++ [r.2] }
 
 def step (P : Params) (s : State) : Event → Option State
   | .start hsOk => some (emit (doStart P s hsOk))
+  | .startRaced hsOk =>
+    if P.startAtomic then none
+    else some (emit (doStart P { s with addr := none, attempted := false } hsOk))   -- it acts on what it saw: nothing started yet
   | .client hsOk connOk =>
     match doStart P s hsOk with
     | (s1, .okAddr _) => some (emit (doClient P s1 connOk))
